@@ -219,11 +219,8 @@ Proof.
 Qed.
 
 (* ---------------------------------------------------- the key tag *)
-Lemma in_names_rsamd5 alg : in_names alg keytag_rsamd5_alg = (alg =? 1).
-Proof.
-  unfold in_names, keytag_rsamd5_alg. cbn [existsb].
-  change (dns_const [82; 83; 65; 77; 68; 53]) with 1. rewrite orb_false_r. apply N.eqb_sym.
-Qed.
+Lemma in_names_rsamd5 alg : (alg =? keytag_rsamd5_alg_value) = (alg =? 1).
+Proof. reflexivity. Qed.
 
 Lemma be16_split flags : flags < 65536 -> be16 flags = [flags / 256; flags mod 256].
 Proof.
